@@ -37,4 +37,21 @@ Definition grad_val (s : @store R) (t : tid) : option (@tens R) := option_map g_
 Definition acc_val (old : option (@tens R)) (v : @tens R) : @tens R :=
   match old with Some g => tadd RN g v | None => v end.
 
+(* ---- mtl_backward ---- *)
+(* gradient of a scalar loss w.r.t. a tensor q, as the engine returns it: the single row of D loss q *)
+Definition grad_of (loss q : tid) : list R := nth 0 (p_D P loss q) [].
+(* row of task `loss` in the matrix handed to the aggregator: its gradients w.r.t. the features,
+   pulled back through the features to the shared parameters (columns in the order of `shared`) *)
+Definition mtl_row (features shared : list tid) (loss : tid) : list R :=
+  concat (map (fun p => vjp RN P features (map (grad_of loss) features) p) shared).
+Definition mtl_matrix (features shared losses : list tid) : list (list R) :=
+  map (mtl_row features shared) losses.
+(* what the tasks, in order, add to a task-specific parameter q *)
+Definition task_updates (tasks : list (list tid)) (losses : list tid) (q : tid)
+           (g0 : option (@tens R)) : option (@tens R) :=
+  fold_left (fun g pl => if mem q (fst pl)
+                         then Some (acc_val g (plain (p_shape P q) (grad_of (snd pl) q)))
+                         else g)
+            (combine tasks losses) g0.
+
 End Spec.
